@@ -17,46 +17,335 @@ import (
 // b cases: Store.QueryIds / IterateIds over real bbolt stores.
 //
 //	b <nstores> {<store>}* <root store> <nfmt> {<bits> <hex>}* <filter> @ <zitiql-hex>
-//	  store = <nsyms> {<name> id|field|set <type> <linked store|->}* <nmaps> {<name> <type>}* <nrows> {<row>}*
-//	  row   = <id-hex> <nfields> {<key> <value>}* <nsets> {<key> L<k> <value>*k}* <nmaps> {<mapkey> <n> {<key> <value>}*}*
+//	  sym   = <name> id|field|set <type> <linked store|->
+//	        | <name> ext <type> - b|s|f <n> {<id-hex> <value>}* <default value>     (AddEntitySymbol: NewBoolFuncSymbol,
+//	                                                    NewStringFuncSymbol (value N = nil result), a custom EntitySymbol)
+//	        | <name> mapped <type> <linked store|-> <key> <mapper id>                 (AddSymbolWithKey / AddFkSymbolWithKey + MapSymbol)
+//	  store = <nsyms> {<sym>}* <nmaps> {<name> <type> <key> <npfx> <pfx>*}*
+//	          <parent store|-> <extended 0|1> <nearly> <npath> <path>* <nrows> {<row>}*
+//	          (a child store: StoreDefinition.Parent / Extended() / BasePath; the first <nearly> symbols are registered
+//	           before parent.GrantSymbols(child), the others and the map symbols after; its rows are the parent entities
+//	           that have child data, with the child's own fields / sets / sub-buckets)
+//	  row   = <id-hex> <nfields> {<key> <value>}* <nsets> {<key> L<k> <value>*k}* <nbuckets> {<key> <node>}*
+//	  node  = v <value> | b <n> {<key> <node>}* | l <n> <node>*     (the non-set sub-buckets of the entity bucket)
 //
 // Output: ok <shape> <ids of QueryIds> <ids collected from IterateIds>   (ids hex, comma separated, - = none)
 //       | err
 
 type c01BSym struct {
 	name   string
-	kind   string // id field set
+	kind   string // id field set ext mapped
 	typ    ast.NodeType
 	linked int // -1 = none
+	key    string     // mapped: the key of the wrapped entitySymbol
+	mapper int        // mapped: which SymbolMapper
+	ext    *c01ExtTab // ext: the function as a table
+}
+
+func sy(name, kind string, typ ast.NodeType, linked int) c01BSym {
+	return c01BSym{name: name, kind: kind, typ: typ, linked: linked}
+}
+
+// an externally computed symbol: kind b = NewBoolFuncSymbol, s = NewStringFuncSymbol, f = c01CustomSym
+type c01ExtTab struct {
+	kind    byte
+	entries map[string]c01Val
+	dflt    c01Val
+}
+
+func (t *c01ExtTab) at(id string) c01Val {
+	if v, ok := t.entries[id]; ok {
+		return v
+	}
+	return t.dflt
+}
+
+// an EntitySymbol implemented outside boltz (every method of the interface is exported)
+type c01CustomSym struct {
+	store boltz.Store
+	name  string
+	typ   ast.NodeType
+	tab   *c01ExtTab
+}
+
+func (s *c01CustomSym) GetStore() boltz.Store      { return s.store }
+func (s *c01CustomSym) GetLinkedType() boltz.Store { return nil }
+func (s *c01CustomSym) GetPath() []string          { return nil }
+func (s *c01CustomSym) GetType() ast.NodeType      { return s.typ }
+func (s *c01CustomSym) GetName() string            { return s.name }
+func (s *c01CustomSym) IsSet() bool                { return false }
+func (s *c01CustomSym) Eval(_ *bbolt.Tx, rowId []byte) (boltz.FieldType, []byte) {
+	v := s.tab.at(string(rowId))
+	return v.ft, v.b
+}
+
+// the SymbolMappers: 0 = boltz.NotNilStringMapper, 1 = strings get the prefix "M", 2 = bools are
+// negated, everything else becomes null
+type c01PrefixMapper struct{}
+
+func (c01PrefixMapper) Map(_ boltz.EntitySymbol, ft boltz.FieldType, v []byte) (boltz.FieldType, []byte) {
+	if ft == boltz.TypeString {
+		return ft, append([]byte("M"), v...)
+	}
+	return ft, v
+}
+
+type c01NegMapper struct{}
+
+func (c01NegMapper) Map(_ boltz.EntitySymbol, ft boltz.FieldType, v []byte) (boltz.FieldType, []byte) {
+	if ft == boltz.TypeBool && len(v) == 1 {
+		return ft, []byte{1 - v[0]}
+	}
+	return boltz.TypeNil, nil
+}
+
+var c01Mappers = []boltz.SymbolMapper{boltz.NotNilStringMapper{}, c01PrefixMapper{}, c01NegMapper{}}
+
+// AddMapSymbol(name, any, key, prefix...)
+type c01BMap struct {
+	name   string
+	key    string
+	prefix []string
 }
 
 type c01BStore struct {
-	name string
-	syms []c01BSym
-	maps []string // map symbols (any-typed), key = name
+	name     string
+	syms     []c01BSym
+	maps     []c01BMap // map symbols (any-typed)
+	parent   int       // -1 = a root store
+	extended bool
+	nearly   int      // own symbols registered before parent.GrantSymbols(child)
+	path     []string // BasePath of a child store: where its data lives inside the parent's entity bucket
 }
 
-// the universe: two linked entity types
+// the symbols a store answers GetSymbol with (own + granted), for the filter generator only; the
+// Lean model computes the table itself (`grantSymbols`)
+func c01EffSyms(stores []c01BStore, st int) []c01BSym {
+	s := stores[st]
+	if s.parent < 0 {
+		return s.syms
+	}
+	var out []c01BSym
+	seen := map[string]bool{}
+	add := func(l []c01BSym) {
+		for _, x := range l {
+			if !seen[x.name] {
+				seen[x.name] = true
+				out = append(out, x)
+			}
+		}
+	}
+	add(s.syms[s.nearly:])
+	add(c01EffSyms(stores, s.parent))
+	add(s.syms[:s.nearly])
+	return out
+}
+
+func c01EffMaps(stores []c01BStore, st int) []string {
+	s := stores[st]
+	var out []string
+	for _, m := range s.maps {
+		out = append(out, m.name)
+	}
+	if s.parent >= 0 {
+		for _, m := range stores[s.parent].maps {
+			out = append(out, m.key) // inherited under its key; the name is offered too (rejected unless equal)
+			if m.name != m.key {
+				out = append(out, m.name)
+			}
+		}
+	}
+	return out
+}
+
+// what a key of a non-set bucket holds: a value, a nested bucket (map) or a list
+type c01MNode struct {
+	val  *c01Val
+	kids map[string]*c01MNode
+	list []*c01MNode
+	kind byte // 'v' 'b' 'l'
+}
+
+func (n *c01MNode) text(b *strings.Builder, fs *[]float64, is *[]int64) {
+	switch n.kind {
+	case 'v':
+		b.WriteString(" v " + n.val.tok)
+		c01ValNumbers(*n.val, fs, is)
+	case 'b':
+		keys := sortedKeys(n.kids)
+		fmt.Fprintf(b, " b %d", len(keys))
+		for _, k := range keys {
+			b.WriteString(" " + k)
+			n.kids[k].text(b, fs, is)
+		}
+	case 'l':
+		fmt.Fprintf(b, " l %d", len(n.list))
+		for _, e := range n.list {
+			e.text(b, fs, is)
+		}
+	}
+}
+
+func c01ParseNode(t *c01Toks) *c01MNode {
+	switch t.next() {
+	case "v":
+		v := c01ParseVal(t.next())
+		return &c01MNode{kind: 'v', val: &v}
+	case "b":
+		n := &c01MNode{kind: 'b', kids: map[string]*c01MNode{}}
+		cnt := t.int()
+		for i := 0; i < cnt; i++ {
+			k := t.next()
+			n.kids[k] = c01ParseNode(t)
+		}
+		return n
+	case "l":
+		n := &c01MNode{kind: 'l'}
+		cnt := t.int()
+		for i := 0; i < cnt; i++ {
+			n.list = append(n.list, c01ParseNode(t))
+		}
+		return n
+	}
+	panic("bad case: node expected")
+}
+
+// write a node at `key` of bucket b the way TypedBucket.setMarshaled / PutMap / PutList lay it out
+func c01PutNode(b *boltz.TypedBucket, key string, n *c01MNode) {
+	switch n.kind {
+	case 'v':
+		c01PutVal(b, key, *n.val)
+	case 'b':
+		sb := b.GetOrCreateBucket(key)
+		for k, kid := range n.kids {
+			c01PutNode(sb, k, kid)
+		}
+		if sb.Err != nil {
+			b.SetError(sb.Err)
+		}
+	case 'l':
+		lb := b.GetOrCreateBucket(key)
+		for i, e := range n.list {
+			c01PutNode(lb, string(boltz.Int32ToBytes(int32(i))), e)
+		}
+		lb.SetInt32(boltz.ListSizeKeyName, int32(len(n.list)), nil)
+		if lb.Err != nil {
+			b.SetError(lb.Err)
+		}
+	}
+}
+
+// the universe: two linked entity types, a plain child store of the first and an extended child
+// store of the second
 var c01Universe = []c01BStore{
-	{name: "things", syms: []c01BSym{
-		{"id", "id", ast.NodeTypeString, -1}, {"name", "field", ast.NodeTypeString, -1}, {"alias", "field", ast.NodeTypeString, -1},
-		{"nbig", "field", ast.NodeTypeInt64, -1}, {"nsmall", "field", ast.NodeTypeInt64, -1}, {"f", "field", ast.NodeTypeFloat64, -1},
-		{"flag", "field", ast.NodeTypeBool, -1}, {"at", "field", ast.NodeTypeDatetime, -1},
-		{"roles", "set", ast.NodeTypeString, -1}, {"owner", "field", ast.NodeTypeString, 1}, {"boss", "field", ast.NodeTypeString, 0},
-		{"groups", "set", ast.NodeTypeString, 1}}, maps: []string{"tags"}},
-	{name: "owners", syms: []c01BSym{
-		{"id", "id", ast.NodeTypeString, -1}, {"label", "field", ast.NodeTypeString, -1}, {"rank", "field", ast.NodeTypeInt64, -1},
-		{"active", "field", ast.NodeTypeBool, -1}, {"boss", "field", ast.NodeTypeString, 1},
-		{"members", "set", ast.NodeTypeString, 0}, {"roles", "set", ast.NodeTypeString, -1}}, maps: []string{"tags"}},
+	{name: "things", parent: -1, syms: []c01BSym{
+		sy("id", "id", ast.NodeTypeString, -1), sy("name", "field", ast.NodeTypeString, -1), sy("alias", "field", ast.NodeTypeString, -1),
+		sy("nbig", "field", ast.NodeTypeInt64, -1), sy("nsmall", "field", ast.NodeTypeInt64, -1), sy("f", "field", ast.NodeTypeFloat64, -1),
+		sy("flag", "field", ast.NodeTypeBool, -1), sy("at", "field", ast.NodeTypeDatetime, -1),
+		sy("roles", "set", ast.NodeTypeString, -1), sy("owner", "field", ast.NodeTypeString, 1), sy("boss", "field", ast.NodeTypeString, 0),
+		sy("groups", "set", ast.NodeTypeString, 1), sy("kidref", "field", ast.NodeTypeString, 2), sy("kids", "set", ast.NodeTypeString, 2),
+		sy("nums", "set", ast.NodeTypeInt64, -1), sy("mixed", "set", ast.NodeTypeAnyType, -1),
+		{name: "mowner", kind: "mapped", typ: ast.NodeTypeString, linked: 1, key: "mowner", mapper: 0},
+		{name: "flagx", kind: "mapped", typ: ast.NodeTypeBool, linked: -1, key: "fx", mapper: 2},
+		{name: "xcalc", kind: "ext", typ: ast.NodeTypeAnyType, linked: -1, ext: &c01ExtTab{kind: 'f'}}},
+		maps: []c01BMap{{"tags", "tags", nil}, {"meta", "m", []string{"ext", "edge"}}}},
+	{name: "owners", parent: -1, syms: []c01BSym{
+		sy("id", "id", ast.NodeTypeString, -1), sy("label", "field", ast.NodeTypeString, -1), sy("rank", "field", ast.NodeTypeInt64, -1),
+		sy("active", "field", ast.NodeTypeBool, -1), sy("boss", "field", ast.NodeTypeString, 1),
+		sy("members", "set", ast.NodeTypeString, 0), sy("roles", "set", ast.NodeTypeString, -1), sy("exts", "set", ast.NodeTypeString, 3),
+		{name: "vip", kind: "ext", typ: ast.NodeTypeBool, linked: -1, ext: &c01ExtTab{kind: 'b'}},
+		{name: "nick", kind: "ext", typ: ast.NodeTypeString, linked: -1, ext: &c01ExtTab{kind: 's'}},
+		{name: "calc", kind: "ext", typ: ast.NodeTypeInt64, linked: -1, ext: &c01ExtTab{kind: 'f'}},
+		{name: "mlabel", kind: "mapped", typ: ast.NodeTypeString, linked: -1, key: "mlab", mapper: 1},
+		{name: "mrank", kind: "mapped", typ: ast.NodeTypeInt64, linked: -1, key: "mrank", mapper: 0}},
+		maps: []c01BMap{{"tags", "tags", []string{"edge"}}, {"attrs", "xattrs", []string{"ext"}}, {"inner", "in", []string{"ext", "xattrs"}}}},
+	// `name` is registered before GrantSymbols (the parent's `name` replaces it), `alias` after (it replaces the parent's)
+	{name: "kidthings", parent: 0, path: []string{"kid"}, nearly: 1, syms: []c01BSym{
+		sy("name", "field", ast.NodeTypeString, -1), sy("alias", "field", ast.NodeTypeString, -1), sy("level", "field", ast.NodeTypeInt64, -1),
+		sy("nick", "field", ast.NodeTypeString, -1), sy("pals", "set", ast.NodeTypeString, 2), sy("marks", "set", ast.NodeTypeString, -1),
+		sy("chief", "field", ast.NodeTypeString, 3)},
+		maps: []c01BMap{{"ktags", "ktags", nil}}},
+	{name: "extowners", parent: 1, extended: true, path: []string{"x", "data"}, syms: []c01BSym{
+		sy("note", "field", ast.NodeTypeString, -1), sy("score", "field", ast.NodeTypeFloat64, -1), sy("fans", "set", ast.NodeTypeString, 2)}},
 }
 
-var c01TagKeys = []string{"k", "lvl", "on"}
+// the element paths the generator asks for below a map symbol: direct elements, nested maps, an element
+// that is itself a map / a list, a path through a value, a path through a missing level
+var c01MapPaths = []string{"k", "lvl", "on", "site", "site.name", "site.lst", "a", "a.b", "a.b.c", "k.x", "site.name.z", "nope.x", "b-c.d_e"}
+
+// the template the stored trees are drawn from (so that the paths above are hit at every kind of node)
+var c01MapTemplate = &c01MNode{kind: 'b', kids: map[string]*c01MNode{
+	"k": {kind: 'v'}, "lvl": {kind: 'v'}, "on": {kind: 'v'},
+	"site": {kind: 'b', kids: map[string]*c01MNode{"name": {kind: 'v'}, "lst": {kind: 'l'}}},
+	"a":    {kind: 'b', kids: map[string]*c01MNode{"b": {kind: 'b', kids: map[string]*c01MNode{"c": {kind: 'v'}}}}},
+	"b-c":  {kind: 'b', kids: map[string]*c01MNode{"d_e": {kind: 'v'}}},
+}}
+
+func c01GenLeaf(r *rng) *c01MNode {
+	v := c01UTC(c01RandVal(r, ast.NodeTypeAnyType))
+	return &c01MNode{kind: 'v', val: &v}
+}
+
+// a stored tree drawn from the template: a node is absent (1/3), of another kind than the template
+// says (1/8: a value where a map is expected, a map or a list where a value is expected), or as the
+// template says
+func c01GenTree(r *rng, tpl *c01MNode, top bool) *c01MNode {
+	if !top && r.chance(1, 8) {
+		switch tpl.kind {
+		case 'v':
+			if r.chance(1, 2) {
+				return &c01MNode{kind: 'b', kids: map[string]*c01MNode{"x": c01GenLeaf(r)}}
+			}
+			return &c01MNode{kind: 'l', list: []*c01MNode{c01GenLeaf(r)}}
+		default:
+			return c01GenLeaf(r)
+		}
+	}
+	switch tpl.kind {
+	case 'v':
+		return c01GenLeaf(r)
+	case 'l':
+		n := &c01MNode{kind: 'l'}
+		for i := r.intn(3); i > 0; i-- {
+			if r.chance(1, 4) {
+				n.list = append(n.list, &c01MNode{kind: 'b', kids: map[string]*c01MNode{"x": c01GenLeaf(r)}})
+			} else {
+				n.list = append(n.list, c01GenLeaf(r))
+			}
+		}
+		return n
+	}
+	n := &c01MNode{kind: 'b', kids: map[string]*c01MNode{}}
+	for _, k := range sortedKeys(tpl.kids) {
+		if r.chance(2, 3) {
+			n.kids[k] = c01GenTree(r, tpl.kids[k], false)
+		}
+	}
+	return n
+}
+
+// place node at path below the entity bucket, creating the prefix buckets (shared between map symbols)
+func c01PlaceNode(forest map[string]*c01MNode, path []string, node *c01MNode) {
+	cur := forest
+	for i, p := range path {
+		if i == len(path)-1 {
+			cur[p] = node
+			return
+		}
+		next, ok := cur[p]
+		if !ok || next.kind != 'b' {
+			next = &c01MNode{kind: 'b', kids: map[string]*c01MNode{}}
+			cur[p] = next
+		}
+		cur = next.kids
+	}
+}
 
 type c01Entity struct {
 	id     string
 	fields map[string]c01Val // explicit values (nil = SetNil); an absent key is simply not written
 	sets   map[string][]c01Val
-	maps   map[string]map[string]c01Val
+	maps   map[string]*c01MNode // the non-set sub-buckets of the entity bucket, as a forest
 }
 
 type c01Dataset struct {
@@ -65,18 +354,29 @@ type c01Dataset struct {
 }
 
 // candidate symbols of a store for the filter generator, by following links up to `depth` segments
+var c01CandCache = map[string]*c01Schema{}
+
 func c01Candidates(stores []c01BStore, st int, depth int) *c01Schema {
+	ck := fmt.Sprintf("%p/%d/%d", &stores[0], st, depth)
+	if sc, ok := c01CandCache[ck]; ok {
+		return sc
+	}
 	sc := &c01Schema{subs: map[string]*c01Schema{}}
+	c01CandCache[ck] = sc
 	type cand struct {
 		name   string
 		typ    ast.NodeType
 		isSet  bool
 		linked int
 	}
+	memo := map[[2]int][]cand{}
 	var rec func(st, depth int) []cand
-	rec = func(st, depth int) []cand {
-		var out []cand
-		for _, s := range stores[st].syms {
+	rec = func(st, depth int) (out []cand) {
+		if m, ok := memo[[2]int{st, depth}]; ok {
+			return m
+		}
+		defer func() { memo[[2]int{st, depth}] = out }()
+		for _, s := range c01EffSyms(stores, st) {
 			out = append(out, cand{s.name, s.typ, s.kind == "set", s.linked})
 			if s.linked >= 0 && depth > 1 && s.kind != "id" {
 				for _, c := range rec(s.linked, depth-1) {
@@ -84,9 +384,11 @@ func c01Candidates(stores []c01BStore, st int, depth int) *c01Schema {
 				}
 			}
 		}
-		for _, m := range stores[st].maps {
-			for _, k := range c01TagKeys {
-				out = append(out, cand{m + "." + k, ast.NodeTypeAnyType, false, -1})
+		for _, m := range c01EffMaps(stores, st) {
+			for _, k := range c01MapPaths {
+				if strings.Count(k, ".")+1 < depth || depth >= 3 {
+					out = append(out, cand{m + "." + k, ast.NodeTypeAnyType, false, -1})
+				}
 			}
 		}
 		return out
@@ -95,25 +397,12 @@ func c01Candidates(stores []c01BStore, st int, depth int) *c01Schema {
 		s := &c01Sym{name: c.name, typ: c.typ, isSet: c.isSet}
 		if c.isSet {
 			sc.sets = append(sc.sets, s)
-			if c.linked >= 0 {
-				sc.subs[c.name] = nil // filled lazily below (needs the linked store's schema)
+			// sub-query schemas: the linked store's symbols, one segment shorter
+			if c.linked >= 0 && depth > 1 {
+				sc.subs[c.name] = c01Candidates(stores, c.linked, depth-1)
 			}
 		} else {
 			sc.scalars = append(sc.scalars, s)
-		}
-	}
-	// sub-query schemas: one level of linked symbols (no further sub-queries below depth 2)
-	for name := range sc.subs {
-		linked := -1
-		for _, c := range rec(st, depth) {
-			if c.name == name {
-				linked = c.linked
-			}
-		}
-		if depth > 1 {
-			sc.subs[name] = c01Candidates(stores, linked, depth-1)
-		} else {
-			delete(sc.subs, name)
 		}
 	}
 	return sc
@@ -146,53 +435,116 @@ func c01UTC(v c01Val) c01Val {
 }
 
 func c01GenDataset(r *rng) *c01Dataset {
-	ds := &c01Dataset{stores: c01Universe}
+	// the schema is the universe; the tables of the external symbols belong to the dataset
+	ds := &c01Dataset{}
+	for _, s := range c01Universe {
+		c := s
+		c.syms = append([]c01BSym{}, s.syms...)
+		ds.stores = append(ds.stores, c)
+	}
 	ids := [][]string{{"a1", "a2", "a3", "a4", "a5", "a6"}, {"b1", "b2", "b3", "b4"}}
-	var present [][]string
-	for st := range ds.stores {
+	var present [][]string // the rows of each store (for a child store: the parent entities with child data)
+	var pool [][]string    // what links into the store are drawn from (for a child store: every parent entity)
+	for st, store := range ds.stores {
+		if store.parent >= 0 {
+			var have []string
+			for _, id := range present[store.parent] {
+				if r.chance(1, 2) {
+					have = append(have, id)
+				}
+			}
+			present = append(present, have)
+			pool = append(pool, present[store.parent])
+			continue
+		}
 		n := r.intn(len(ids[st]) + 1)
 		if r.chance(3, 4) && n < 2 {
 			n = 2 + r.intn(len(ids[st])-1)
 		}
 		present = append(present, ids[st][:n])
+		pool = append(pool, ids[st][:n])
+	}
+	// the functions behind the external symbols, as tables over the ids in use (plus "" and a dangling id)
+	for st := range ds.stores {
+		for i, s := range ds.stores[st].syms {
+			if s.kind != "ext" {
+				continue
+			}
+			tab := &c01ExtTab{kind: s.ext.kind, entries: map[string]c01Val{}}
+			val := func() c01Val {
+				switch tab.kind {
+				case 'b':
+					return c01Bool(r.chance(1, 2))
+				case 's':
+					if r.chance(1, 6) {
+						return c01Nil() // the function returns a nil *string
+					}
+					return c01Str(pick(r, c01Strs))
+				}
+				return c01UTC(c01RandVal(r, s.typ))
+			}
+			for _, id := range append(append([]string{}, pool[st]...), "", "zz") {
+				if r.chance(3, 4) {
+					tab.entries[id] = val()
+				}
+			}
+			tab.dflt = val()
+			ds.stores[st].syms[i].ext = tab
+		}
 	}
 	for st, store := range ds.stores {
 		var rows []*c01Entity
 		for _, id := range present[st] {
-			e := &c01Entity{id: id, fields: map[string]c01Val{}, sets: map[string][]c01Val{}, maps: map[string]map[string]c01Val{}}
+			e := &c01Entity{id: id, fields: map[string]c01Val{}, sets: map[string][]c01Val{}, maps: map[string]*c01MNode{}}
 			for _, s := range store.syms {
 				switch s.kind {
-				case "field":
+				case "field", "mapped":
+					key := s.name
+					if s.kind == "mapped" {
+						key = s.key // a mapped symbol wraps the entitySymbol that reads this key
+					}
 					if r.chance(1, 4) {
 						if r.chance(1, 2) {
-							e.fields[s.name] = c01Nil() // explicit nil; otherwise the key is absent
+							e.fields[key] = c01Nil() // explicit nil; otherwise the key is absent
 						}
 						continue
 					}
 					if s.linked >= 0 {
-						tgt := present[s.linked]
+						tgt := pool[s.linked]
 						if len(tgt) == 0 || r.chance(1, 20) {
-							e.fields[s.name] = c01Str("zz") // dangling reference
+							e.fields[key] = c01Str("zz") // dangling reference
 						} else {
-							e.fields[s.name] = c01Str(pick(r, tgt))
+							e.fields[key] = c01Str(pick(r, tgt))
 						}
 					} else if s.name == "nsmall" {
-						e.fields[s.name] = c01Int32(pick(r, c01Int32s))
+						e.fields[key] = c01Int32(pick(r, c01Int32s))
 					} else {
-						e.fields[s.name] = c01UTC(c01RandTyped(r, s.typ))
+						e.fields[key] = c01UTC(c01RandTyped(r, s.typ))
 					}
 				case "set":
 					var vals []c01Val
 					if s.linked >= 0 {
-						for _, t := range present[s.linked] {
+						for _, t := range pool[s.linked] {
 							if r.chance(1, 2) {
 								vals = append(vals, c01Str(t))
 							}
 						}
 					} else {
+						// a bucket of typed keys: strings for a string set, ints for an int set, anything for an any-typed one
 						n := r.intn(4)
 						for i := 0; i < n; i++ {
-							vals = append(vals, c01Str(pick(r, c01Strs)))
+							switch s.typ {
+							case ast.NodeTypeString:
+								vals = append(vals, c01Str(pick(r, c01Strs)))
+							case ast.NodeTypeAnyType:
+								v := c01UTC(c01RandVal(r, s.typ))
+								if v.ft == boltz.TypeNil {
+									v = c01Str(pick(r, c01Strs))
+								}
+								vals = append(vals, v)
+							default:
+								vals = append(vals, c01UTC(c01RandTyped(r, s.typ)))
+							}
 						}
 					}
 					if len(vals) > 0 || r.chance(1, 2) {
@@ -201,14 +553,16 @@ func c01GenDataset(r *rng) *c01Dataset {
 				}
 			}
 			for _, m := range store.maps {
-				if r.chance(3, 4) {
-					mv := map[string]c01Val{}
-					for _, k := range c01TagKeys {
-						if r.chance(1, 2) {
-							mv[k] = c01UTC(c01RandVal(r, ast.NodeTypeAnyType))
-						}
-					}
-					e.maps[m] = mv
+				path := append(append([]string{}, m.prefix...), m.key)
+				switch {
+				case r.chance(3, 4):
+					c01PlaceNode(e.maps, path, c01GenTree(r, c01MapTemplate, true))
+				case r.chance(1, 3):
+					// only a part of the prefix exists
+					c01PlaceNode(e.maps, path[:1+r.intn(len(path))], &c01MNode{kind: 'b', kids: map[string]*c01MNode{}})
+				case r.chance(1, 3):
+					// a value where the map bucket (or one of its prefix buckets) should be
+					c01PlaceNode(e.maps, path[:1+r.intn(len(path))], c01GenLeaf(r))
 				}
 			}
 			rows = append(rows, e)
@@ -229,10 +583,34 @@ func (ds *c01Dataset) text(fs *[]float64, is *[]int64) string {
 				l = strconv.Itoa(s.linked)
 			}
 			fmt.Fprintf(&b, " %s %s %s %s", s.name, s.kind, c01TypeTok[s.typ], l)
+			switch s.kind {
+			case "ext":
+				ids := sortedKeys(s.ext.entries)
+				fmt.Fprintf(&b, " %c %d", s.ext.kind, len(ids))
+				for _, id := range ids {
+					fmt.Fprintf(&b, " %s %s", toWire(id), s.ext.entries[id].tok)
+					c01ValNumbers(s.ext.entries[id], fs, is)
+				}
+				b.WriteString(" " + s.ext.dflt.tok)
+				c01ValNumbers(s.ext.dflt, fs, is)
+			case "mapped":
+				fmt.Fprintf(&b, " %s %d", s.key, s.mapper)
+			}
 		}
 		fmt.Fprintf(&b, " %d", len(store.maps))
 		for _, m := range store.maps {
-			fmt.Fprintf(&b, " %s a", m)
+			fmt.Fprintf(&b, " %s a %s %d", m.name, m.key, len(m.prefix))
+			for _, p := range m.prefix {
+				b.WriteString(" " + p)
+			}
+		}
+		par := "-"
+		if store.parent >= 0 {
+			par = strconv.Itoa(store.parent)
+		}
+		fmt.Fprintf(&b, " %s %d %d %d", par, b2i(store.extended), store.nearly, len(store.path))
+		for _, p := range store.path {
+			b.WriteString(" " + p)
 		}
 		fmt.Fprintf(&b, " %d", len(ds.rows[st]))
 		for _, e := range ds.rows[st] {
@@ -249,17 +627,14 @@ func (ds *c01Dataset) text(fs *[]float64, is *[]int64) string {
 				fmt.Fprintf(&b, " %s L%d", k, len(e.sets[k]))
 				for _, v := range e.sets[k] {
 					b.WriteString(" " + v.tok)
+					c01ValNumbers(v, fs, is)
 				}
 			}
 			mkeys := sortedKeys(e.maps)
 			fmt.Fprintf(&b, " %d", len(mkeys))
 			for _, mk := range mkeys {
-				ks := sortedKeys(e.maps[mk])
-				fmt.Fprintf(&b, " %s %d", mk, len(ks))
-				for _, k := range ks {
-					fmt.Fprintf(&b, " %s %s", k, e.maps[mk][k].tok)
-					c01ValNumbers(e.maps[mk][k], fs, is)
-				}
+				b.WriteString(" " + mk)
+				e.maps[mk].text(&b, fs, is)
 			}
 		}
 	}
@@ -305,11 +680,26 @@ func c01GenBoltAtoms(r *rng, ds *c01Dataset, schemas []*c01Schema, out *bufio.Wr
 		}
 		return &c01Node{kind: "cmp", op: op, l: l, lit: c01RandLit(r, pick(r, kinds))}
 	}
+	// every symbol of up to two segments, a sample of the longer ones
+	sample := func(syms []*c01Sym, n int) []*c01Sym {
+		var out, long []*c01Sym
+		for _, s := range syms {
+			if strings.Count(s.name, ".") <= 1 {
+				out = append(out, s)
+			} else {
+				long = append(long, s)
+			}
+		}
+		for i := 0; i < n && len(long) > 0; i++ {
+			out = append(out, pick(r, long))
+		}
+		return out
+	}
 	for root, sc := range schemas {
-		for _, s := range sc.scalars {
+		for _, s := range sample(sc.scalars, 60) {
 			emit(root, cmpFor(&c01Node{kind: "sym", name: s.name}, s.typ, true))
 		}
-		for _, s := range sc.sets {
+		for _, s := range sample(sc.sets, 30) {
 			emit(root, cmpFor(&c01Node{kind: "fn", fn: "anyOf", name: s.name}, s.typ, true))
 			emit(root, cmpFor(&c01Node{kind: "fn", fn: "allOf", name: s.name}, s.typ, true))
 			emit(root, &c01Node{kind: "cmp", op: pick(r, c01CmpOps), l: &c01Node{kind: "fn", fn: "count", name: s.name},
@@ -329,9 +719,12 @@ func c01GenBoltAtoms(r *rng, ds *c01Dataset, schemas []*c01Schema, out *bufio.Wr
 
 func c01GenBolt(tier string, r *rng, n int, depth int, out *bufio.Writer) {
 	g := &c01Gen_{r: r, illRate: 8}
-	schemas := []*c01Schema{c01Candidates(c01Universe, 0, 3), c01Candidates(c01Universe, 1, 3)}
-	// one case in six draws its symbols from dotted names of up to four segments
-	deep := []*c01Schema{c01Candidates(c01Universe, 0, 4), c01Candidates(c01Universe, 1, 4)}
+	var schemas, deep []*c01Schema
+	for st := range c01Universe {
+		schemas = append(schemas, c01Candidates(c01Universe, st, 3))
+		// one case in six draws its symbols from dotted names of up to four segments
+		deep = append(deep, c01Candidates(c01Universe, st, 4))
+	}
 	nAtomSets := 1
 	if tier == "thorough" {
 		nAtomSets = 12
@@ -344,10 +737,7 @@ func c01GenBolt(tier string, r *rng, n int, depth int, out *bufio.Writer) {
 		if i%8 == 0 {
 			ds = c01GenDataset(r)
 		}
-		root := 0
-		if r.chance(1, 4) {
-			root = 1
-		}
+		root := pick(r, []int{0, 0, 0, 1, 1, 2, 2, 3})
 		d := 1 + r.intn(depth)
 		if i%3 == 0 {
 			d = 0
@@ -488,17 +878,43 @@ func c01ParseDataset(t *c01Toks) *c01Dataset {
 			if l != "-" {
 				s.linked, _ = strconv.Atoi(l)
 			}
+			switch s.kind {
+			case "ext":
+				s.ext = &c01ExtTab{kind: t.next()[0], entries: map[string]c01Val{}}
+				for n := t.int(); n > 0; n-- {
+					id := fromWire(t.next())
+					s.ext.entries[id] = c01ParseVal(t.next())
+				}
+				s.ext.dflt = c01ParseVal(t.next())
+			case "mapped":
+				s.key = t.next()
+				s.mapper = t.int()
+			}
 			store.syms = append(store.syms, s)
 		}
 		nm := t.int()
 		for i := 0; i < nm; i++ {
-			store.maps = append(store.maps, t.next())
+			m := c01BMap{name: t.next()}
 			t.next()
+			m.key = t.next()
+			for np := t.int(); np > 0; np-- {
+				m.prefix = append(m.prefix, t.next())
+			}
+			store.maps = append(store.maps, m)
+		}
+		store.parent = -1
+		if par := t.next(); par != "-" {
+			store.parent, _ = strconv.Atoi(par)
+		}
+		store.extended = t.next() == "1"
+		store.nearly = t.int()
+		for np := t.int(); np > 0; np-- {
+			store.path = append(store.path, t.next())
 		}
 		nr := t.int()
 		var rows []*c01Entity
 		for i := 0; i < nr; i++ {
-			e := &c01Entity{id: fromWire(t.next()), fields: map[string]c01Val{}, sets: map[string][]c01Val{}, maps: map[string]map[string]c01Val{}}
+			e := &c01Entity{id: fromWire(t.next()), fields: map[string]c01Val{}, sets: map[string][]c01Val{}, maps: map[string]*c01MNode{}}
 			nf := t.int()
 			for j := 0; j < nf; j++ {
 				key := t.next()
@@ -512,13 +928,7 @@ func c01ParseDataset(t *c01Toks) *c01Dataset {
 			nmap := t.int()
 			for j := 0; j < nmap; j++ {
 				mk := t.next()
-				cnt := t.int()
-				mv := map[string]c01Val{}
-				for x := 0; x < cnt; x++ {
-					key := t.next()
-					mv[key] = c01ParseVal(t.next())
-				}
-				e.maps[mk] = mv
+				e.maps[mk] = c01ParseNode(t)
 			}
 			rows = append(rows, e)
 		}
@@ -546,12 +956,25 @@ func c01OpenDataset(key string, ds *c01Dataset) *c01OpenDb {
 	_ = os.RemoveAll(dir)
 	o := &c01OpenDb{key: key, dir: dir, db: db}
 	for _, s := range ds.stores {
+		// a child store: Parent + BasePath (where its data lives inside the parent's entity bucket)
+		if s.parent >= 0 {
+			def := &boltz.StoreDefinition[boltz.Entity]{EntityType: s.name, Parent: o.stores[s.parent], BasePath: s.path}
+			child := boltz.NewBaseStore(*def)
+			if s.extended {
+				child.Extended()
+			}
+			o.stores = append(o.stores, child)
+			continue
+		}
 		def := (&boltz.StoreDefinition[boltz.Entity]{EntityType: s.name}).WithBasePath("u")
 		o.stores = append(o.stores, boltz.NewBaseStore(*def))
 	}
 	for st, s := range ds.stores {
 		store := o.stores[st]
-		for _, sym := range s.syms {
+		for i, sym := range s.syms {
+			if s.parent >= 0 && i == s.nearly {
+				o.stores[s.parent].GrantSymbols(store)
+			}
 			switch {
 			case sym.kind == "id":
 				store.AddIdSymbol(sym.name, sym.typ)
@@ -563,17 +986,54 @@ func c01OpenDataset(key string, ds *c01Dataset) *c01OpenDb {
 				store.AddFkSetSymbol(sym.name, o.stores[sym.linked])
 			case sym.kind == "set":
 				store.AddSetSymbol(sym.name, sym.typ)
+			case sym.kind == "mapped":
+				if sym.linked >= 0 {
+					store.AddFkSymbolWithKey(sym.name, sym.key, o.stores[sym.linked])
+				} else {
+					store.AddSymbolWithKey(sym.name, sym.typ, sym.key)
+				}
+				store.MapSymbol(sym.name, c01Mappers[sym.mapper])
+			case sym.kind == "ext":
+				tab := sym.ext
+				switch tab.kind {
+				case 'b':
+					store.AddEntitySymbol(boltz.NewBoolFuncSymbol(store, sym.name, func(id string) bool {
+						v := tab.at(id)
+						return v.ft == boltz.TypeBool && v.b[0] == 1
+					}))
+				case 's':
+					store.AddEntitySymbol(boltz.NewStringFuncSymbol(store, sym.name, func(id string) *string {
+						v := tab.at(id)
+						if v.ft != boltz.TypeString {
+							return nil
+						}
+						s := string(v.b)
+						return &s
+					}))
+				default:
+					store.AddEntitySymbol(&c01CustomSym{store: store, name: sym.name, typ: sym.typ, tab: tab})
+				}
 			}
 		}
+		if s.parent >= 0 && s.nearly >= len(s.syms) {
+			o.stores[s.parent].GrantSymbols(store)
+		}
 		for _, m := range s.maps {
-			store.AddMapSymbol(m, ast.NodeTypeAnyType, m)
+			store.AddMapSymbol(m.name, ast.NodeTypeAnyType, m.key, m.prefix...)
 		}
 	}
 	err = db.Update(func(tx *bbolt.Tx) error {
 		for st, s := range ds.stores {
-			base := boltz.GetOrCreatePath(tx, "u", s.name)
+			root := s
+			for root.parent >= 0 {
+				root = ds.stores[root.parent]
+			}
+			base := boltz.GetOrCreatePath(tx, "u", root.name)
 			for _, e := range ds.rows[st] {
 				b := base.GetOrCreatePath(e.id)
+				if s.parent >= 0 {
+					b = b.GetOrCreatePath(s.path...)
+				}
 				for k, v := range e.fields {
 					c01PutVal(b, k, v)
 				}
@@ -586,14 +1046,8 @@ func c01OpenDataset(key string, ds *c01Dataset) *c01OpenDb {
 						return sb.Err
 					}
 				}
-				for mk, mv := range e.maps {
-					mb := b.GetOrCreatePath(mk)
-					for k, v := range mv {
-						c01PutVal(mb, k, v)
-					}
-					if mb.Err != nil {
-						return mb.Err
-					}
+				for mk, node := range e.maps {
+					c01PutNode(b, mk, node)
 				}
 				if b.Err != nil {
 					return b.Err
